@@ -1,6 +1,7 @@
 package main
 
 import (
+	"regexp"
 	"encoding/json"
 	"flag"
 	"fmt"
@@ -22,7 +23,16 @@ type LockFile struct {
 	Counts map[string]int `json:"counts"`
 	// functions under contract per property on the unchanged tree
 	Functions map[string][]string `json:"functions"`
+	// points (blocks, returns) that are unreachable under the contracts on the unchanged tree, by
+	// function and block label (without the block number), with how many: any other unreachable point
+	// means that the obligations behind it are proved vacuously and is reported as a violation
+	Unreachable map[string]int `json:"unreachable"`
 }
+
+var blockNo = regexp.MustCompile(`#cover\{block [0-9]+ `)
+
+// coverKey: the name of a cover obligation without the block number (stable under edits elsewhere in the function).
+func coverKey(name string) string { return blockNo.ReplaceAllString(name, "#cover{block ") }
 
 type KnownFinding struct {
 	Property   string `json:"property"`
@@ -324,7 +334,7 @@ func results2obls(jobs []*job) []*Obligation {
 }
 
 func writeLock(verif string, obls []*Obligation, old LockFile, known []KnownFinding) int {
-	lock := LockFile{Undecided: map[string]string{}, Counts: map[string]int{}, Functions: map[string][]string{}}
+	lock := LockFile{Undecided: map[string]string{}, Counts: map[string]int{}, Functions: map[string][]string{}, Unreachable: map[string]int{}}
 	knownSet := map[string]bool{}
 	for _, k := range known {
 		if k.Status != "fixed" {
@@ -335,6 +345,9 @@ func writeLock(verif string, obls []*Obligation, old LockFile, known []KnownFind
 	for _, o := range obls {
 		lock.Counts[o.Func]++
 		if o.Kind == "cover" {
+			if o.Result != nil && o.Result.Status == "unsat" {
+				lock.Unreachable[coverKey(o.Name)]++
+			}
 			continue
 		}
 		if o.Result == nil || o.Result.Status != "unsat" {
@@ -356,6 +369,11 @@ func writeLock(verif string, obls []*Obligation, old LockFile, known []KnownFind
 			for _, k := range sortedKeys2(lock.Undecided) {
 				if _, had := old.Undecided[k]; !had {
 					fmt.Printf("NEW undecided (not claimed): %s [%s] - check that this is not a regression\n", k, lock.Undecided[k])
+				}
+			}
+			for k, n := range lock.Unreachable {
+				if n > old.Unreachable[k] {
+					fmt.Printf("NEW unreachable point: %s (%d) - everything behind it is proved vacuously: find out why before accepting\n", k, n)
 				}
 			}
 		}
